@@ -256,6 +256,21 @@ def run(prog, tier):
                'cplusplus/xraylib++.h', 'c++', 'xraylib.h', 'cplusplus/xraylib++.h',
                'xraylib++.h does not bring in the prototypes of xraylib.h', why='prototypes of xraylib.h visible in the C++ unit')
 
+    # the C++ header declares its wrappers as templates and member functions: whether each is declared with the C prototype's name,
+    # arity and argument types is the wrapper analysis of rules/c18.py (binds the C function of the same name, forwards its parameters
+    # one-to-one with the C parameter types, instantiable with exactly the C types); read here as this property's C++ clause
+    from rules import c18
+    shim18 = c18.run(prog, tier)
+    take18 = ('forwarding', 'binds-same-function', 'instantiable-with-C-types', 'wrapper-present')
+    n18 = sum(1 for rule, inst, why, loc in shim18.held if rule in take18)
+    bad18 = [v for v in shim18.violations if v['rule'] in take18]
+    for v in bad18:
+        chk.bad('prototype', v['unit'], 'c++', '%s: %s %s' % (v['rule'], v['function'], v['instance']), v['loc'],
+                'the C++ header declares a wrapper that does not match the C prototype: ' + v['message'])
+    if not bad18:
+        chk.ok('prototype', 'c++ wrappers', 'every wrapper of xraylib++.h binds the C function of its name and forwards the C parameter types (%d obligations of the wrapper analysis)' % n18,
+               'cplusplus/xraylib++.h')
+    chk.floor('C++ wrapper obligations behind the prototype clause', n18 + len(bad18), 300)
     # ----- prototypes --------------------------------------------------------------------------
     cprotos = {}
     for p_ in prog.protos():
